@@ -16,6 +16,7 @@ import BespokeVerif.Model.Select
 import BespokeVerif.Model.Macro
 import BespokeVerif.Model.Config
 import BespokeVerif.Model.Scan
+import BespokeVerif.Model.Regex
 open Lean BV
 
 namespace Drv
@@ -576,6 +577,19 @@ def opScan (j : Json) : R Json := do
   return Json.mkObj [("stmts", Json.arr (stmts.map fun st => Json.arr (st.map Json.str).toArray).toArray),
                      ("canon", Json.str (String.intercalate "\n" (stmts.map stmtText) ++ "\n"))]
 
+def vclassName : VClass → String
+  | .instruction => "instruction" | .macro => "macro" | .register => "register" | .predefined => "predefined" | .none => "none"
+
+/-- op "classify": vocabulary classification by the modelled generated patterns and by the spec -/
+def opClassify (j : Json) : R Json := do
+  let instrs ← strList j "instrs"
+  let macros ← strList j "macros"
+  let regs ← strList j "regs"
+  let pre ← strList j "pre"
+  let probes ← strList j "probes"
+  return Json.mkObj [("impl", Json.arr (probes.map fun w => Json.str (vclassName (classify instrs macros regs pre w))).toArray),
+                     ("spec", Json.arr (probes.map fun w => Json.str (vclassName (classifySpec instrs macros regs pre w))).toArray)]
+
 def dispatch (j : Json) : R Json := do
   let op ← str j "op"
   match op with
@@ -590,6 +604,7 @@ def dispatch (j : Json) : R Json := do
   | "macro" => opMacro j
   | "validate" => opValidate j
   | "scan" => opScan j
+  | "classify" => opClassify j
   | "require" => opRequire j
   | "ping" => pure (Json.mkObj [("pong", Json.bool true)])
   | _ => throw s!"unknown op {op}"
